@@ -1359,6 +1359,12 @@ def strip_term(interp, path, z, mode, depth=0):
     elif mode == 'rstrip':
         trail = uf(interp, 'py.rstrip.trail', S, S)(z)
         path.define(z == z3.Concat(r, trail))
+        # text up to a literal non-whitespace character at the start survives: rstrip('// ' + x) starts with '//'
+        first = z.arg(0) if (z3.is_app(z) and z.decl().kind() == z3.Z3_OP_SEQ_CONCAT) else z
+        if z3.is_string_value(first):
+            lit = ops._unescape(first.as_string()).rstrip()
+            if lit:
+                path.define(z3.PrefixOf(z3.StringVal(lit), r))
         path.define(ops.all_ws(trail, path))
         path.define(z3.Or(r == empty, z3.Not(r_last_ws)))
         path.define(z3.Implies(z3.And(z3.Length(z) > 0, z3.Not(last_ws)), r == z))
